@@ -25,7 +25,7 @@ NCASES = {'quick': 1600, 'thorough': 50000}
 MIN_NONTRIVIAL = {'quick': 600, 'thorough': 20000}
 TIME_CAP = {'quick': 300, 'thorough': 3600}
 REQUIRED_CLASSES = (
-    ['type-' + M.type_kw(dt, sfx) for dt, sfx in M.TYPES] +
+    ['text-read-from-file', 'type-' + M.type_kw(dt, sfx) for dt, sfx in M.TYPES] +
     ['edge:table-cells', 'edge:table-cell-special-characters', 'scalar-bool', 'scalar-int', 'scalar-float', 'scalar-str', 'value-none',
      'int-negative', 'int-plus-sign', 'float-form-int', 'float-form-dec', 'float-form-sci', 'float-negative',
      'str-bare', 'str-single-quoted', 'str-double-quoted', 'str-block', 'str-with-blank', 'str-with-hash',
@@ -192,11 +192,22 @@ def plain(v):
     return v
 
 
-def observe(ctx, text):
-    """-> dict(st='ok'|'exc'|'budget', ...) with per-node observations in insertion order"""
+def observe(ctx, text, via='string'):
+    """-> dict(st='ok'|'exc'|'budget', ...) with per-node observations in insertion order.
+    via='file': the text is written to a scratch file and handed over with add_file (the ordinary way to use DIP)"""
     DIP, Format = ctx['DIP'], ctx['Format']
     dip = DIP(name='c13_%d' % next(_counter))
-    dip.add_string(text)
+    if via == 'file':
+        import tempfile, os
+        fd, path = tempfile.mkstemp(prefix='vt_c13_', suffix='.dip')
+        try:
+            with os.fdopen(fd, 'w', newline='') as f:
+                f.write(text)
+            dip.add_file(path)
+        finally:
+            os.unlink(path)
+    else:
+        dip.add_string(text)
     st = ctx['guard'].run(dip.parse)
     if st[0] == 'budget':
         return dict(st='budget', steps=st[1], budget=ctx['guard'].budget, _keep=dip)
@@ -373,10 +384,14 @@ def run_case(case, ctx):
     devs, classes = [], set()
     results = []
     keep = []
-    for rs in (case['r1'], case['r2']):
+    for nth, rs in enumerate((case['r1'], case['r2'])):
         rend = M.render(tree, rs, trig, plain=plain_r)
         classes.update(rend['classes'])
-        obs = observe(ctx, rend['text'])
+        via = 'file' if (nth == 1 and case['r2'] % 2 == 0 and '\r' not in rend['text']) else 'string'
+        if via == 'file':
+            classes.add('text-read-from-file')
+            mon['parses_of_a_file'] = mon.get('parses_of_a_file', 0) + 1
+        obs = observe(ctx, rend['text'], via)
         keep.append(obs.pop('_keep', None))
         mon['parses_under_step_guard'] += 1
         hygiene(ctx, mon)
